@@ -340,7 +340,57 @@ def detachMany : Nat → State → View → Option (State × View)
     | none => none
     | some (s1, v1) => detachMany n s1 v1
 
+/-! ### unclean shutdown and `InitConsistentState` -/
+
+/-- Blocks above the persisted consistency marker (tip first) and the chain at the marker. -/
+def splitAtMarker (chainRev : List Block) (marker : Nat) : List Block × List Block :=
+  (chainRev.takeWhile (fun b => b.id != marker), chainRev.dropWhile (fun b => b.id != marker))
+
+/-- One iteration of the replay loop of `InitConsistentState`: `connectTransactions` on the
+cache (no stxos, no journal write), then `flush(FlushIfNeeded)` with the state of the block
+just replayed. -/
+def replayOne (s : State) (b : Block) (full : Bool) : Option State :=
+  match connectTransactions s.db (s.chainRev.length + 1) s.cache b with
+  | none => none
+  | some (c1, _) =>
+    some (flushAt { s with cache := c1, chainRev := b :: s.chainRev } b.id .ifNeeded full false)
+
+/-- Replay blocks (oldest first); `fulls` gives the memory-threshold outcome per block. -/
+def replay : State → List Block → List Bool → Option State
+  | s, [], _ => some s
+  | s, b :: bs, fs =>
+    match replayOne s b (fs.headD false) with
+    | none => none
+    | some s1 => replay s1 bs fs.tail
+
+/-- What a new process finds after an unclean shutdown: the cache is gone, the bucket is at
+the marker; returns the state at the marker and the blocks to replay (oldest first). -/
+def crashed (s : State) : State × List Block :=
+  let sp := splitAtMarker s.chainRev s.marker
+  ({ s with cache := emptyCache, chainRev := sp.2, lastFlush := s.marker }, sp.1.reverse)
+
+/-- `InitConsistentState` after an unclean shutdown, running to completion. -/
+def restart (s : State) (fulls : List Bool) : Option State :=
+  replay (crashed s).1 (crashed s).2 fulls
+
+/-- `InitConsistentState` interrupted after `n` replayed blocks (or the process dying there):
+only the persistent fields matter afterwards; the best chain is unchanged. -/
+def restartAborted (s : State) (n : Nat) (fulls : List Bool) : Option State :=
+  match replay (crashed s).1 ((crashed s).2.take n) fulls with
+  | none => none
+  | some s1 => some { s1 with cache := emptyCache, chainRev := s.chainRev }
+
+def restartsAborted : State → List (Nat × List Bool) → Option State
+  | s, [] => some s
+  | s, a :: as =>
+    match restartAborted s a.1 a.2 with
+    | none => none
+    | some s1 => restartsAborted s1 as
+
 inductive Op
+  /-- unclean shutdown, any number of interrupted start-ups (each after `n` replayed blocks),
+  then a start-up that completes; every replayed block carries its threshold outcome -/
+  | restart (aborts : List (Nat × List Bool)) (fulls : List Bool)
   /-- main-chain extension with validation fetches -/
   | connect (b : Block) (bip30 full : Bool)
   /-- attach during a reorganisation (no validation fetches on this path) -/
@@ -353,6 +403,10 @@ inductive Op
 
 /-- One step; `none` = the code returns an AssertError / corrupt-journal error. -/
 def step (s : State) : Op → Option State
+  | .restart aborts fulls =>
+    match restartsAborted s aborts with
+    | none => none
+    | some s1 => restart s1 fulls
   | .connect b bip30 full => connect s b true bip30 full
   | .attach b full => connect s b false false full
   | .detach n => (detachMany n s emptyView).map (·.1)
